@@ -1061,11 +1061,15 @@ impl Probe {
             return;
         }
 
-        let incoming: Vec<_> = msg
+        // Both record sets are compared in sorted order, whatever order the other
+        // host wrote its records in.
+        let mut incoming: Vec<_> = msg
             .authorities()
             .iter()
             .filter(|r| r.get_name() == probe_name)
             .collect();
+        incoming.sort_by(|a, b| a.compare(b.as_ref()));
+        self.records.sort_by(|a, b| a.compare(b.as_ref()));
         /*
         RFC 6762 section 8.2: https://datatracker.ietf.org/doc/html/rfc6762#section-8.2
         ...
